@@ -4,7 +4,11 @@
 // language version) it runs with the pre-1.21 meaning of panic(nil) - recover() returns nil. The harness runs the library under
 // that setting, so that "panic(any value)" includes the one value recover cannot tell from "no panic".
 //
+// Likewise crypto/tls's own floor for servers: under that language version a tls.Config whose MinVersion is left at zero accepts
+// TLS 1.0 (GODEBUG tls10server=1). The library must not rely on the process-wide default for what C16 promises.
+//
 //go:debug panicnil=1
+//go:debug tls10server=1
 package main
 
 import (
